@@ -1,37 +1,61 @@
 ------------------------------ MODULE SwitchAck ------------------------------
-(* C08, switch level: when may the switch acknowledge a settle/fail in the   *)
-(* forwarding package of the OUTGOING channel?  In production both channels' *)
-(* packages and the circuit map live in one database; the package entry      *)
-(* (SettleFailFilter bit) is the only durable copy of the downstream         *)
-(* response until the incoming link has put it into a signed commitment and  *)
-(* torn the circuit down.  One forwarded HTLC, one circuit:                  *)
-(*   circ  open -> closing (CloseCircuit: volatile mark, the response is in  *)
-(*         the incoming link's in-memory mailbox) -> gone (DeleteCircuits)   *)
-(*   mb    the incoming mailbox holds the response (volatile)                *)
-(*   pkg   none / new / acked: the response in the outgoing package          *)
-(*   pend  the switch's pendingSettleFails holds the reference (volatile)    *)
-(* Steps = what the links and the node do to the switch:                     *)
-(*   Pipe    the pipelined copy of a settle (no package reference)           *)
-(*   Lock    the peer's revocation: entry written, locked-in copy with its   *)
-(*           reference handed to the switch (again on every replay)          *)
-(*   Commit  the incoming link commits the response it holds: teardown       *)
-(*   Tick    the ack ticker flushes pendingSettleFails into the package      *)
-(*   Restart node restart: memory lost, circuits reloaded, unacked package   *)
-(*           entries re-forwarded (reforwardResponses)                       *)
-(* Rule: the entry is acked only after the teardown, never while the circuit *)
-(* is merely closing; hence as long as the circuit exists the response can   *)
-(* still be delivered (mailbox or unacked package).                          *)
+(* C08, switch level: what is DURABLE for a settle/fail on its way back       *)
+(* through the forwarding node, and what a restart re-creates from it.        *)
+(* In production both channels' forwarding packages and the circuit map live  *)
+(* in one database; the package of the OUTGOING channel is the only durable   *)
+(* copy of the downstream response until the incoming link has put it into a  *)
+(* signed commitment and torn the circuit down.  One forwarded HTLC, one      *)
+(* circuit, one package (no adds, one settle/fail):                           *)
+(*   circ  open -> closing (CloseCircuit: volatile mark, the response is in   *)
+(*         the incoming link's in-memory mailbox) -> gone (DeleteCircuits)    *)
+(*   mb    the incoming mailbox holds the response (volatile)                 *)
+(*   pkg   none / new / acked / gone: the package and its SettleFailFilter    *)
+(*         bit in the database (gone = removed by the garbage collector)      *)
+(*   proc  the package's forwarding filter is on disk (FwdStateProcessed;     *)
+(*         FALSE = FwdStateLockedIn)                                          *)
+(*   owed  the outgoing link has written the package and not yet handed the   *)
+(*         response to the switch (volatile: it is inside its revocation      *)
+(*         handler)                                                           *)
+(*   pend  the switch's pendingSettleFails holds the reference (volatile)     *)
+(* Steps = what the links and the node do to the switch and the package:      *)
+(*   Pipe    the pipelined copy of a settle (no package reference)            *)
+(*   Revoke  the peer's revocation (ReceiveRevocation): package written,      *)
+(*           FwdStateLockedIn, nothing handed over yet                        *)
+(*   Hand    processRemoteSettleFails of a package that is still LockedIn:    *)
+(*           the locked-in copy with its reference goes to the switch; the    *)
+(*           link stops / fails / is quiescent before processRemoteAdds       *)
+(*           writes the forwarding filter                                     *)
+(*   Lock    the whole revocation handler (package written if there is none,  *)
+(*           response handed over with its reference, forwarding filter set); *)
+(*           again on every replay by the link (resolveFwdPkgs)               *)
+(*   Commit  the incoming link commits the response it holds: teardown        *)
+(*   Tick    the ack ticker flushes pendingSettleFails into the package       *)
+(*   GC      channelLink.loadAndRemove of the outgoing channel (link start    *)
+(*           and FwdPkgGCTicker): a COMPLETED package (forwarding filter set, *)
+(*           every add acked - there are none - and every settle/fail acked)  *)
+(*           is deleted                                                       *)
+(*   Restart node restart: memory lost, circuits reloaded, the un-acked       *)
+(*           settles/fails of EVERY package - whatever its state - are        *)
+(*           re-forwarded (reforwardResponses/reforwardSettleFails); the      *)
+(*           outgoing link may never come back                                *)
+(* Rules: the entry is acked only after the teardown, never while the circuit *)
+(* is merely closing, and the package is removed only when acked; hence as    *)
+(* long as the circuit exists the response can still be delivered (mailbox or *)
+(* un-acked package), and whenever no link owes the hand-over it IS in the    *)
+(* incoming mailbox (nothing waits for an outgoing link that may be gone).    *)
 EXTENDS Integers, Sequences
 
-CONSTANT AckWhileClosing   \* FALSE = the code; TRUE = the defect (reference queued also on ErrCircuitClosing)
+CONSTANTS AckWhileClosing,        \* FALSE = the code; TRUE = the defect (reference queued also on ErrCircuitClosing)
+          GCIgnoresSettleFails,   \* FALSE = the code; TRUE = the defect (GC looks at the adds' AckFilter only)
+          ReforwardSkipsLockedIn  \* FALSE = the code; TRUE = the defect (start-up skips FwdStateLockedIn packages)
 
 VARIABLES kind,   \* "settle" | "fail"
-          circ, mb, pkg, pend,
+          circ, mb, pkg, proc, owed, pend,
           got     \* 1 iff the last step handed a packet to the incoming link
-svars == <<kind, circ, mb, pkg, pend, got>>
+svars == <<kind, circ, mb, pkg, proc, owed, pend, got>>
 
 SInit == /\ kind \in {"settle", "fail"}
-         /\ circ = "open" /\ mb = FALSE /\ pkg = "none" /\ pend = FALSE /\ got = 0
+         /\ circ = "open" /\ mb = FALSE /\ pkg = "none" /\ proc = FALSE /\ owed = FALSE /\ pend = FALSE /\ got = 0
 
 \* handlePacketSettle/Fail -> closeCircuit for a response with (ref) or without a package reference
 Arrive(ref) ==
@@ -40,29 +64,45 @@ Arrive(ref) ==
                            /\ pend' = (pend \/ (ref /\ AckWhileClosing))
     [] OTHER            -> /\ UNCHANGED <<circ, mb>> /\ got' = 0 /\ pend' = (pend \/ ref)
 
-Pipe == /\ kind = "settle" /\ Arrive(FALSE) /\ UNCHANGED <<kind, pkg>>
+Pipe == /\ kind = "settle" /\ Arrive(FALSE) /\ UNCHANGED <<kind, pkg, proc, owed>>
 
-Lock == /\ pkg' = IF pkg = "none" THEN "new" ELSE pkg
+Revoke == /\ pkg = "none" /\ pkg' = "new" /\ proc' = FALSE /\ owed' = TRUE /\ got' = 0
+          /\ UNCHANGED <<kind, circ, mb, pend>>
+
+Hand == /\ pkg \in {"new", "acked"} /\ ~proc
+        /\ Arrive(TRUE) /\ owed' = FALSE /\ UNCHANGED <<kind, pkg, proc>>
+
+Lock == /\ pkg # "gone"
+        /\ pkg' = IF pkg = "none" THEN "new" ELSE pkg
+        /\ proc' = TRUE /\ owed' = FALSE
         /\ Arrive(TRUE) /\ UNCHANGED kind
 
-Commit == /\ mb /\ circ' = "gone" /\ mb' = FALSE /\ got' = 0 /\ UNCHANGED <<kind, pkg, pend>>
+Commit == /\ mb /\ circ' = "gone" /\ mb' = FALSE /\ got' = 0 /\ UNCHANGED <<kind, pkg, proc, owed, pend>>
 
 Tick == /\ pkg' = IF pend /\ pkg = "new" THEN "acked" ELSE pkg
-        /\ pend' = FALSE /\ got' = 0 /\ UNCHANGED <<kind, circ, mb>>
+        /\ pend' = FALSE /\ got' = 0 /\ UNCHANGED <<kind, circ, mb, proc, owed>>
+
+GC == /\ pkg' = IF proc /\ (pkg = "acked" \/ (GCIgnoresSettleFails /\ pkg = "new")) THEN "gone" ELSE pkg
+      /\ got' = 0 /\ UNCHANGED <<kind, circ, mb, proc, owed, pend>>
 
 Restart ==
   LET c0 == IF circ = "closing" THEN "open" ELSE circ IN
-  /\ IF pkg = "new"
+  /\ IF pkg = "new" /\ (proc \/ ~ReforwardSkipsLockedIn)
      THEN IF c0 = "open" THEN /\ circ' = "closing" /\ mb' = TRUE /\ got' = 1 /\ pend' = FALSE
                          ELSE /\ circ' = c0 /\ mb' = FALSE /\ got' = 0 /\ pend' = TRUE
      ELSE /\ circ' = c0 /\ mb' = FALSE /\ got' = 0 /\ pend' = FALSE
-  /\ UNCHANGED <<kind, pkg>>
+  /\ owed' = FALSE
+  /\ UNCHANGED <<kind, pkg, proc>>
 
-SNext == Pipe \/ Lock \/ Commit \/ Tick \/ Restart
+SNext == Pipe \/ Revoke \/ Hand \/ Lock \/ Commit \/ Tick \/ GC \/ Restart
 SSpec == SInit /\ [][SNext]_svars
 
-\* the rule
+\* the rules
 AckOnlyAfterTeardown == pkg = "acked" => circ = "gone"
-\* its consequence: a recorded response is never lost while its circuit exists
+\* the garbage collector removes a package only when it is complete, its SettleFailFilter included
+RemovedOnlyWhenDone == pkg = "gone" => circ = "gone"
+\* consequence: a recorded response is never lost while its circuit exists (the garbage collector included)
 ResponseRecoverable == (circ # "gone" /\ pkg # "none") => (mb \/ pkg = "new")
+\* and it does not wait for the outgoing link: outside that link's revocation handler it is with the incoming link
+NothingStranded == (pkg = "new" /\ circ # "gone" /\ ~owed) => mb
 =============================================================================
